@@ -858,6 +858,8 @@ def c07_family(tier, rnd):
         [("title", {"v": "R&amp;D 1 &lt; 2 &#39;q&#39;"}), ("class", {"q": "'", "v": "a&amp;b"})],
         # written without quotes: once the value is computed the attribute is quoted
         [("class", {"q": "", "v": "plain"}), ("id", {"q": "", "v": "i2", "sp": "\n  "}), ("title", {"v": "50% off"})],
+        # values that are namespace URIs of the template language (ordinary attributes all the same)
+        [("title", {"v": "http://xml.zope.org/namespaces/tal"}), ("class", {"v": "http://xml.zope.org/namespaces/metal"}), ("id", {"v": "http://xml.zope.org/namespaces/i18n"})],
     ]
     named = ["class", "CLASS", "id", "checked", "title"]
     ndom = [NONE, DEFAULT, S(""), B(False), S("h")] if quick else \
@@ -876,6 +878,7 @@ def c07_family(tier, rnd):
     # two dictionaries in one statement (each key at most once in the start tag, later sources override earlier ones)
     d2 = [("{}", "{}")] + [t for n in ("class", "id", "title") for t in (("{}", n, "{}"), (n, "{}", "{}"), ("{}", "{}", n))]
     lists += d2 if not quick else [d2[0]] + rnd.sample(d2[1:], 4)
+    twins = True
     configs = [("html", None, ["checked"]), ("none", set(), []), ("explicit", {"class", "id"}, ["class", "id"])]
     progs = []
     for st in statics:
@@ -892,6 +895,21 @@ def c07_family(tier, rnd):
                 cfg = {} if cfgset is None else {"boolean_attributes": sorted(cfgset)}
                 progs.append(program(items, al.dom, cfg=cfg, bools=bools,
                                      fam="C07:%s:[%s]:%s" % (",".join(s if isinstance(s, str) else s[0] for s in st), ";".join(lst), cname)))
+    # two elements of one template that write the same static attribute text: what is computed for one (a dictionary that
+    # provides the name, a named entry) says nothing about the other
+    for order in (0, 1):
+        for second in ("dict", "named", "plain"):
+            al = Alloc(tier)
+            st = ["class", "title"]
+            plain = [Open(sattr=st), Text("a"), CLOSE]
+            if second == "dict":
+                other = [Open(sattr=st, dattr=[("", al.call("attrs", [DICT([("class", S("b"))]), DICT([("class", NONE)]), DICT([])]))]), Text("b"), CLOSE]
+            elif second == "named":
+                other = [Open(sattr=st, dattr=[("class", al.call("attrs", [S("b"), NONE, DEFAULT]))]), Text("b"), CLOSE]
+            else:
+                other = [Open(sattr=st, cond=al.call("cond", [B(True), B(False)])), Text("b"), CLOSE]
+            items = [Text("pre")] + (plain + other if order == 0 else other + plain) + [Open(sattr=st), Text("c"), CLOSE, Text("post")]
+            progs.append(program(items, al.dom, fam="C07:twins:%s:%d" % (second, order)))
     return progs
 
 
